@@ -158,10 +158,19 @@ type BlockOutcome struct {
 // e.BlockModules. Each call is wrapped in recover(). It mutates the stores of ctx (callers pass
 // a branch) and returns the context of the new block.
 func (e *Env) NextBlock(ctx sdk.Context, dt time.Duration) (sdk.Context, BlockOutcome) {
+	bo := e.EndBlockOnly(ctx)
+	nctx, bo2 := e.BeginNext(ctx, dt)
+	bo.Panics = append(bo.Panics, bo2.Panics...)
+	bo.Events = append(bo.Events, bo2.Events...)
+	return nctx, bo
+}
+
+// BeginNext moves ctx to height+1 / time+dt (app hash = hash of the irismod stores as they are now, i.e. at
+// the end of the previous block) and runs the begin blockers. It is the second half of NextBlock.
+func (e *Env) BeginNext(ctx sdk.Context, dt time.Duration) (sdk.Context, BlockOutcome) {
 	var bo BlockOutcome
 	em := sdk.NewEventManager()
 	ctx = ctx.WithEventManager(em).WithTxBytes(nil)
-	e.runBlockers(ctx, false, &bo)
 	h := ctx.BlockHeader()
 	prevHash := StateHash(ctx, e, allIrismodStores)
 	h.Height++
@@ -171,6 +180,16 @@ func (e *Env) NextBlock(ctx sdk.Context, dt time.Duration) (sdk.Context, BlockOu
 	e.runBlockers(ctx, true, &bo)
 	bo.Events = em.Events()
 	return ctx.WithEventManager(sdk.NewEventManager()), bo
+}
+
+// BeginAt runs the begin blockers on ctx as it is (used after a genesis import, whose context already
+// carries the header of the first block).
+func (e *Env) BeginAt(ctx sdk.Context) BlockOutcome {
+	var bo BlockOutcome
+	em := sdk.NewEventManager()
+	e.runBlockers(ctx.WithEventManager(em).WithTxBytes(nil), true, &bo)
+	bo.Events = em.Events()
+	return bo
 }
 
 // EndBlockOnly runs the end blockers at the current height (used to observe a block boundary
